@@ -13,6 +13,9 @@ _nd = _np.ndarray
 
 
 def s_isnan(x):
+    if type(x).__name__ == 'SFP':
+        import z3
+        return SBool.mk(z3.fpIsNaN(x.t))
     if isinstance(x, SFloat):
         return SBool.mk(x.nan)
     if isinstance(x, (SInt, SBool)):
@@ -60,6 +63,8 @@ def s_min(a, b, propagate_nan=True):
 
 
 def _truediv(a, b):
+    if type(a).__name__ == 'SFP' or type(b).__name__ == 'SFP':
+        return a / b
     return fl_arith('/', as_sfloat(a), as_sfloat(b))
 
 
@@ -214,6 +219,8 @@ def apply_cells(ufunc, cells, in_dts, out_dt):
                   and ufunc.__name__ not in ('power',) else c)
                  for c in cells]
         cells = [SFloat.mk(c.k, c.v) if isinstance(c, SFloat) else c for c in cells]
+    if any(type(c).__name__ == 'SFP' for c in cells):
+        cells = [float(c) if isinstance(c, (int, bool)) and not isinstance(c, SVal) else c for c in cells]
     r = f(*cells)
     return r
 
